@@ -23,8 +23,8 @@ META = dict(
 def obligations(tier):
     q = tier == 'quick'
     return [
-        Ob('write_then_read_back', 'ch', 'subsets of 4 optional channels (+ unknown name), widths, decimals, 5 reductions, 1..2 frames, 8 value patterns, multi-valued float and integer channels',
+        Ob('write_then_read_back', 'ch', 'subsets of 4 optional channels (+ unknown name), widths, decimals, 5 reductions, 1..2 frames, 8 value patterns, multi-valued float and integer channels; through the combined writer or the three incremental writers',
            ['LAS.core.WriteLAS.write_curve_and_array_section_to_las', 'write_curve_section_to_las', 'write_array_section_header_to_las', 'write_array_section_data_to_las',
-            '_add_x_axis_to_channels_to_write', 'array_reduce', 'common.data_table.format_table', 'LAS.core.LASRead.LASRead'],
+            '_add_x_axis_to_channels_to_write', 'write_array_section_to_las', 'array_reduce', 'common.data_table.format_table', 'LAS.core.LASRead.LASRead'],
            harness='C10_writelas', func='write_read_q' if q else 'write_read', timeout=280 if q else 2400, parts=16),
     ]
